@@ -36,6 +36,14 @@ over the triple core with independently chosen orders for the two atoms.  Then
 Repetition pass: relations in which equal alternatives / equal groups occur more than once ([[a],[a]], [[a, a]],
 [[a],[b],[a]], [[a, b],[c],[a, b]], ...) over the pair core, built from equal but distinct objects and from one shared
 object per distinct atom / group.
+
+Ladders (beyond the small scope): for every n in 1..40 and 63 64 65 100 127 128 129 255 256 257 999 1000 1001 1025 2500 2501
+5000 one structure with n architectures in a list, n terms in a restriction group, n groups in a formula, n alternatives in
+an or-group, n or-groups in a relation (four to six arrangements each: plain / negated / alternating / the odd one first,
+last or in the middle; bare names or atoms rotating through every combination of optional parts); for every L in 120..135,
+255..257 and around 1000, 4 Ki, 16 Ki, 64 Ki, 128 Ki, 256 Ki a restriction group / architecture list whose text is exactly
+L characters and a name / version / qualifier of L characters.  Generated from the compact case, judged by the round-trip
+oracle and at Sources / Packages .relations; signatures start with the family ("ladder/alternatives/rel/parse/...").
 """
 import itertools
 import warnings
@@ -61,7 +69,8 @@ RULE = ("Engine B on a grammar product: states = distinct generator prefixes (na
         "state / transition / trace per (shape with repeated atoms or groups, object sharing); non-trivial by the "
         "rule for ordinary structures; calling-convention pass: one state / transition / trace per structure, every "
         "other way of calling PkgRelation.str (8) and parse_relations (6) an evaluation each; paragraph-construction pass: "
-        "one state / transition / trace per (structure, class, field, way the paragraph came into being, way of reading)")
+        "one state / transition / trace per (structure, class, field, way the paragraph came into being, way of reading); "
+        "ladders: one state / transition / trace per (family, n or L, arrangement, via), non-trivial when n >= 4")
 BUDGET = {"quick": 240, "thorough": 3000}
 
 KEYS = ("name", "archqual", "version", "arch", "restrictions")
@@ -127,6 +136,7 @@ def bounds(tier):
                                        "structures": "every atom once, each under one (class, field, way, reading) of the %d "
                                                      "combinations in rotation; 4 structures under every (class, field, way)"
                                                      % len(MIXIN_CTOR_COMBOS)},
+            "beyond_the_small_scope": ladder_bounds(tier),
             "core_selection": "deterministic greedy cover of all 2-way combinations of component values and all 16 "
                               "presence masks of the optional parts, then an even stride; independent of the seed"}
 
@@ -163,6 +173,10 @@ def assumptions():
         "(lazy parse of those fields), so only ways of construction are varied; a paragraph that is assigned the field "
         "after construction reports [] for it on the unchanged library and is therefore dumped and read again; other "
         "paragraphs of the same class alive at the same time must not matter",
+        "ladders: the statement bounds neither the number of architectures, restriction terms, groups, alternatives or or-groups "
+        "nor the length of a name, version, qualifier, architecture list or restriction group; ladder components stay inside "
+        "the character sets of the small scope (lower-case profile names, names and versions over the policy characters); the "
+        "ladders are exhaustive in n / L with a fixed handful of arrangements per step",
         "sweep character sets (policy, not what the regex happens to take): package names a<c>b with c in [a-z0-9+.-], "
         "architecture qualifiers and architecture names a<c>b with c in [a-z0-9-], versions 1<c>2 with c in "
         "[A-Za-z0-9.+~-] and the epoch colon as '1:2', build-profile names a<c>b with c in [a-z0-9+.-] (the parser takes "
@@ -410,6 +424,8 @@ def where(got, want):
 
 def exec_case(case):
     """-> (violations, outcome class, evaluations)"""
+    if case.get("ladder"):
+        return exec_ladder(case)
     if case.get("alias"):
         return exec_alias(case)
     if case.get("keys"):
@@ -959,6 +975,201 @@ def alias_nontrivial(case):
 
 # ------------------------------------------------------------------------------------------------
 
+
+# ------------------------------------------------------------------------------------------------
+# beyond the small scope: count ladders and size ladders.  A case is {"ladder": family, "n": n or L, "arr": arrangement,
+# "via": "" (PkgRelation.str -> parse_relations) or [class, field index, way of reading] (the string as a field of a
+# paragraph, read through .relations), "L": letter}; the structure is generated from it (ladder_rels) and judged by the
+# oracles above, the family in front of the signature.
+
+LADDER_NS = list(range(1, 41)) + [63, 64, 65, 100, 127, 128, 129, 255, 256, 257, 999, 1000, 1001, 1025, 2500, 2501, 5000]
+SIZE_LS = list(range(120, 136)) + [255, 256, 257, 997, 998, 999, 1000, 4095, 4096, 4097, 16383, 16384, 16385, 65535, 65536, 65537,
+                                   131071, 131072, 131073, 262143, 262144, 262145]
+LADDER_VIAS = ["", ["Sources", 0, "subscript"], ["Packages", 0, "items"]]
+LADDER_FAMS = {
+    "ladder/architectures": ["plain", "negated", "alternating", "first-negated", "last-negated", "middle-plain"],
+    "ladder/restriction-terms": ["plain", "negated", "alternating", "first-negated", "last-negated", "in-second-group"],
+    "ladder/restriction-groups": ["one-term", "two-terms", "growing", "negated-last-group"],
+    "ladder/alternatives": ["plain", "featured", "versions", "last-featured"],
+    "ladder/or-groups": ["plain", "featured", "two-alternatives", "last-featured"],
+}
+SIZE_FAMS = {
+    "size/restriction-group-text": ["one-term", "terms-of-7", "second-of-three-groups", "negated-terms"],
+    "size/architecture-list-text": ["one-name", "names-of-7", "negated-names"],
+    "size/name": ["plain", "dots-and-hyphens"],
+    "size/version": ["plain", "epoch-and-revision"],
+    "size/archqual": ["plain"],
+}
+_ARCHES = ["amd64", "i386", "hurd-any", "linux-any", "kfreebsd-amd64"]
+
+
+def ladder_bounds(tier):
+    return {"counts": "n = 1..40, 63, 64, 65, 100, 127, 128, 129, 255, 256, 257, 999, 1000, 1001, 1025, 2500, 2501, 5000 (every n)",
+            "count_families": dict(LADDER_FAMS),
+            "count_meaning": {"ladder/architectures": "one atom (name, version, the list, one restriction group) with n architectures in its list",
+                              "ladder/restriction-terms": "one atom with n terms in one restriction group",
+                              "ladder/restriction-groups": "one atom with n groups in its restriction formula (one term each; two; 1, 2, 3, 1, ... terms)",
+                              "ladder/alternatives": "n alternatives in one or-group, followed by a second or-group (bare names; atoms whose "
+                                                     "optional parts rotate through all 16 presence masks; versions)",
+                              "ladder/or-groups": "n or-groups in one relation (likewise; two alternatives each)"},
+            "sizes": "L = 120..135, 255, 256, 257, 997..1000, 4095..4097, 16383..16385, 65535..65537, 131071..131073, 262143..262145",
+            "size_families": dict(SIZE_FAMS),
+            "size_meaning": "the text of one restriction group '<...>' / of one architecture list '[...]' of exactly L characters (one long "
+                            "name; names of 7 characters and a filler name), a package name / version / architecture qualifier of L characters",
+            "vias": "every ladder structure through PkgRelation.str -> parse_relations; at quick up to 257 elements (counts) / 16385 "
+                    "characters (sizes, Sources only), at thorough always, also as the value of %s, read through .relations; texts made of "
+                    "many 7-character words stop at 65537 characters at quick"
+                    % ", ".join("%s %s (%s)" % (v[0], MIXIN_FIELDS[v[0]][v[1]], v[2]) for v in LADDER_VIAS[1:])}
+
+
+def _featured(i, L):
+    """atom number i with its optional parts present by the bits of i"""
+    q = ("any", "native", "i386", "kfreebsd-amd64")[i // 16 % 4] if i & 1 else None
+    v = [("<<", "<=", "=", ">=", ">>")[i % 5], "%d:%d.0-%d~%s" % (i % 3, i, i % 7, L)] if i & 2 else None
+    a = [[bool((i + k) % 3), _ARCHES[(i + k) % 5]] for k in range(1 + i % 3)] if i & 4 else None
+    r = [[[bool((i + g + k) % 2), "p%d%s" % (k, L)] for k in range(1 + (i + g) % 2)] for g in range(1 + i // 8 % 2)] if i & 8 else None
+    return ["%s%d-x.y+z" % (L, i), q, v, a, r]
+
+
+def _filled(L, width, unit, neg=False):
+    """-> words whose ' '.join has exactly `width` characters: words of len(unit)+digits ..., the last one padded"""
+    words = []
+    used = 0
+    i = 0
+    while True:
+        w = ("!" if neg and i % 2 == 0 else "") + (unit + "%d" % (i % 10))[:7 - (1 if neg and i % 2 == 0 else 0)]
+        rest = width - used - (1 if words else 0)
+        if rest <= len(w) + 2:
+            # the last word takes what is left (at least one character)
+            if rest <= 0:
+                last = words.pop()
+                used -= len(last) + (1 if words else 0)
+                rest = width - used - (1 if words else 0)
+            words.append(("z" * rest))
+            break
+        words.append(w)
+        used += len(w) + (1 if len(words) > 1 else 0)
+        i += 1
+    assert len(" ".join(words)) == width, (width, len(" ".join(words)))
+    return words
+
+
+def ladder_rels(case):
+    fam, n, arr, L = case["ladder"], case["n"], case["arr"], case["L"]
+
+    def flags(n, arr):
+        return [{"plain": True, "negated": False, "alternating": i % 2 == 0, "first-negated": i != 0, "last-negated": i != n - 1,
+                 "middle-plain": i == n // 2, "in-second-group": i % 3 != 1}[arr] for i in range(n)]
+    if fam == "ladder/architectures":
+        arch = [[f, "%s-a%d" % (_ARCHES[i % 5], i)] for i, f in enumerate(flags(n, arr))]
+        return [[[L + "1", None, [">=", "1.0"], arch, [[[False, "nocheck"]]]]], [["after", None, None, None, None]]]
+    if fam == "ladder/restriction-terms":
+        terms = [[f, "p%d%s" % (i, L)] for i, f in enumerate(flags(n, arr))]
+        groups = [terms] if arr != "in-second-group" else [[[True, "stage1"]], terms, [[False, "cross"]]]
+        return [[[L + "1", "any", None, [[True, "amd64"]], groups]], [["after", None, None, None, None]]]
+    if fam == "ladder/restriction-groups":
+        groups = []
+        for i in range(n):
+            k = {"one-term": 1, "two-terms": 2, "growing": 1 + i % 3, "negated-last-group": 1}[arr]
+            groups.append([[(i + j) % 2 == 0 if arr != "negated-last-group" else i != n - 1, "g%dt%d%s" % (i, j, L)] for j in range(k)])
+        return [[[L + "1", None, ["<<", "2"], None, groups], ["alt", None, None, None, None]]]
+
+    def member(i, n, arr):
+        if arr == "plain" or arr == "two-alternatives":
+            return ["%s%d" % (L, i), None, None, None, None]
+        if arr == "versions":
+            return ["%s%d" % (L, i), None, [("<<", "<=", "=", ">=", ">>")[i % 5], "%d.%d" % (i, i % 7)], None, None]
+        if arr == "last-featured":
+            return _featured(15 + 16 * (i % 4), L) if i == n - 1 else ["%s%d" % (L, i), None, None, None, None]
+        return _featured(i, L)
+    if fam == "ladder/alternatives":
+        return [[member(i, n, arr) for i in range(n)], [["after", None, None, None, None], ["or-this", "any", None, None, None]]]
+    if fam == "ladder/or-groups":
+        if arr == "two-alternatives":
+            return [[member(i, n, arr), ["%s%dalt" % (L, i), None, ["=", "%d" % i], None, None]] for i in range(n)]
+        return [[member(i, n, arr)] for i in range(n)]
+    # sizes: n is the length L of the text
+    if fam == "size/restriction-group-text":
+        width = n - 2                         # without the angle brackets
+        if arr == "one-term":
+            words = ["p" * width]
+        else:
+            words = _filled(n, width, "pr" + L, neg=(arr == "negated-terms"))
+        terms = [[not w.startswith("!"), w.lstrip("!")] for w in words]
+        groups = [terms] if arr != "second-of-three-groups" else [[[True, "stage1"]], terms, [[False, "cross"]]]
+        return [[[L + "1", None, [">=", "1"], [[True, "amd64"]], groups]], [["after", None, None, None, None]]]
+    if fam == "size/architecture-list-text":
+        width = n - 2
+        words = ["a" * width] if arr == "one-name" else _filled(n, width, "ar-", neg=(arr == "negated-names"))
+        arch = [[not w.startswith("!"), w.lstrip("!")] for w in words]
+        return [[[L + "1", None, [">=", "1"], arch, [[[True, "stage1"]]]]], [["after", None, None, None, None]]]
+    if fam == "size/name":
+        name = L * n if arr == "plain" else (L + ("." + L * 5 + "-" + L * 5 + "+") * (n // 13 + 1))[:n - 1] + "0"
+        return [[[name, "any", [">=", "1"], None, None], ["alt", None, None, None, None]], [[name, None, None, None, None]]]
+    if fam == "size/version":
+        v = "1" * n if arr == "plain" else "1:" + ("2.0~" + L + "+") * ((n - 4) // 6) + "9" * ((n - 4) % 6) + "-3"
+        assert len(v) == n, (n, len(v))
+        return [[[L + "1", None, ["=", v], [[True, "amd64"]], None]], [["after", None, None, None, None]]]
+    if fam == "size/archqual":
+        return [[[L + "1", (L + "-") * ((n - 1) // 2) + "x" * (n - 2 * ((n - 1) // 2)), ["=", "1"], None, None]], [["after", None, None, None, None]]]
+    raise AssertionError(fam)
+
+
+def exec_ladder(case):
+    inner = {"rels": ladder_rels(case)}
+    if case.get("via"):
+        inner["mixin"] = list(case["via"])
+    bad, outcome, ev = exec_case(inner)
+    return [(case["ladder"] + "/" + b[0], core._short(b[1], 400), core._short(b[2], 400)) for b in bad], outcome, ev
+
+
+MANY_WORDS = ("terms-of-7", "second-of-three-groups", "negated-terms", "names-of-7", "negated-names")
+
+
+def ladder_vias(fam, arr, n, tier):
+    """beyond 257 elements / 16385 characters only the anchored pair of functions is run at quick (a paragraph around a
+    long value costs more than the value)"""
+    if tier != "quick":
+        return LADDER_VIAS
+    if fam in LADDER_FAMS:
+        return LADDER_VIAS if n <= 257 else LADDER_VIAS[:1]
+    return LADDER_VIAS[:2] if n <= 16385 else LADDER_VIAS[:1]
+
+
+def ladder_cases(fam, arr, seed, tier="quick"):
+    L = comps(seed)["name"][0]
+    ns = LADDER_NS if fam in LADDER_FAMS else SIZE_LS
+    if tier == "quick" and arr in MANY_WORDS:
+        ns = [n for n in ns if n <= 65537]          # 256 Ki of 7-character words are 37 000 namedtuples per structure
+    return [{"ladder": fam, "n": n, "arr": arr, "via": via, "L": L} for n in ns for via in ladder_vias(fam, arr, n, tier)]
+
+
+def _n_class(n):
+    return "n<=3" if n <= 3 else "n<=40" if n <= 40 else "n<=257" if n <= 257 else "n<=1025" if n <= 1025 else "n>=2500"
+
+
+def _ladder_unit(part, u, seed, tier):
+    _, fam, arr = u
+    size = fam.startswith("size/")
+    cases = ladder_cases(fam, arr, seed, tier)
+    for case in cases:
+        bad, outcome, ev = exec_ladder(case)
+        part.states += 1
+        part.transitions += 1
+        part.traces += 1
+        part.evaluations += ev
+        via = "str-parse" if not case["via"] else "%s.relations" % case["via"][0]
+        part.outcomes["%s %s %s via %s: %s" % (fam, arr, "L" if size else _n_class(case["n"]), via, "VIOLATION" if bad else "round trip")] += 1
+        part.extra["structures of a size ladder" if size else "structures of a count ladder"] += 1
+        if case["n"] >= 4:
+            part.nontrivial += 1
+        for sig, exp, obs in bad:
+            part.violation(sig, case, exp, obs)
+        part.max_depth = max(part.max_depth, 5 if size else case["n"])
+    part.sample(cases[len(cases) // 3])
+    return part
+
+
 _CORES = {}
 
 
@@ -997,6 +1208,8 @@ def units(tier, seed):
     out += [("calls-more", tc)]
     out += [("mixin-ctor-atoms", n, q) for n in range(RADIX[0]) for q in range(RADIX[1])]
     out += [("mixin-ctor-all", c) for c in ("Packages", "Sources", "BuildInfo")]
+    out += [("ladder", f, a) for f in sorted(LADDER_FAMS) for a in LADDER_FAMS[f]]
+    out += [("ladder", f, a) for f in sorted(SIZE_FAMS) for a in SIZE_FAMS[f]]
     return out
 
 
@@ -1006,6 +1219,8 @@ def _first_indexes(i):
 
 
 def unit_cost(u, tier):
+    if u[0] == "ladder":
+        return 20000
     if u[0] in ("atoms", "alias"):
         return PER_UNIT
     if u[0] == "alias-pairs":
@@ -1065,6 +1280,8 @@ def run_unit(u, tier, seed):
     def node(n=1):
         part.states += n
         part.transitions += n
+    if u[0] == "ladder":
+        return _ladder_unit(part, u, seed, tier)
     if u[0] == "atoms":
         _, n, q = u
         node(1 + (q == 0))
@@ -1346,6 +1563,8 @@ def replay(case):
 
 
 def repro_py(case):
+    if case.get("ladder"):
+        return "from mc.props import c13\ncase = %r\nassert c13.replay(case) == [], c13.replay(case)\n" % (case,)
     if case.get("alias"):
         return ("from debian.deb822 import PkgRelation as R\n"
                 "case = %r\n"
